@@ -125,6 +125,9 @@ type RawPeer struct {
 	buf  []byte
 	EOF  bool
 	Err  error // last hard read error (not timeout, not EOF)
+	// Block makes reads wait for the other side for as long as it takes
+	// instead of giving up once the rest of the system is quiescent.
+	Block bool
 }
 
 func NewRawPeer(c *rt.Conn) *RawPeer { return &RawPeer{Raw: c, Conn: c} }
@@ -169,13 +172,17 @@ func (p *RawPeer) next(wait time.Duration) (json.RawMessage, bool) {
 		if p.EOF || p.Err != nil {
 			return nil, false
 		}
-		if !p.Raw.Readable() {
+		if !p.Raw.Readable() && !p.Block {
 			rt.Quiesce()
 			if !p.Raw.Readable() {
 				return nil, false
 			}
 		}
-		_ = p.Conn.SetReadDeadline(time.Now().Add(wait))
+		if p.Block {
+			_ = p.Conn.SetReadDeadline(time.Time{})
+		} else {
+			_ = p.Conn.SetReadDeadline(time.Now().Add(wait))
+		}
 		tmp := make([]byte, 16384)
 		n, err := p.Conn.Read(tmp)
 		p.buf = append(p.buf, tmp[:n]...)
